@@ -10,3 +10,5 @@ import Refine.Lemmas.ScalarReal
 import Refine.Props.C15
 import Refine.Lemmas.GeomReal
 import Refine.Props.C11
+import Refine.Lemmas.ReconReal
+import Refine.Props.C19
